@@ -8,7 +8,7 @@ run_demo() {
   if [ -f "$MD/demo.py" ]; then
     (cd "$WT" && FORCE_BINJA_MOCK=1 timeout 600 /venv/bin/python "$MD/demo.py" >/tmp/demo.out 2>&1); return $?
   elif [ -f "$MD/demo.rs" ]; then
-    [ -f "$BD/Cargo.toml" ] || /root/rsvendor/mk.sh "$WT" "$BD" >/dev/null
+    [ -x /root/rsvendor/mk.sh ] || /verif/bin/setup_rsvendor.sh >/dev/null; [ -f "$BD/Cargo.toml" ] || /root/rsvendor/mk.sh "$WT" "$BD" >/dev/null
     cp "$MD/demo.rs" "$BD/demo.rs"
     (cd "$BD" && RUSTFLAGS=-Awarnings timeout 1500 cargo run --offline --bin demo >/tmp/demo.out 2>&1); return $?
   else
